@@ -180,11 +180,41 @@ def _init_worker(pid):
     _CHECK = load_check(pid)
     import csep  # noqa: F401
     _snapshot_library_state()
+    _limit_memory()
     # numpy global RNG state unrelated to anything under test
     import numpy
     numpy.random.seed(987654321)
     devnull = open(os.devnull, 'w')
     sys.stdout = devnull   # library prints are discarded in workers
+
+
+class CaseTimeout(BaseException):
+    """A case ran longer than the per-case wall limit (never the case on the unchanged tree; a change that makes the library
+    allocate or loop without bound must not hang the check)."""
+
+
+def _limit_memory():
+    """Address-space cap per process (default 8 GiB, VERIF_MEM_LIMIT_GB): a runaway allocation in the library becomes a
+    MemoryError inside the case (a recorded, replayable failure) instead of an out-of-memory kill of a worker."""
+    try:
+        import resource
+        gb = float(os.environ.get('VERIF_MEM_LIMIT_GB', '8') or 0)
+        if gb > 0:
+            cap = int(gb * 2 ** 30)
+            soft, hard = resource.getrlimit(resource.RLIMIT_AS)
+            if hard != resource.RLIM_INFINITY:
+                cap = min(cap, hard)
+            resource.setrlimit(resource.RLIMIT_AS, (cap, hard))
+    except Exception:
+        pass
+
+
+def _case_limit():
+    return int(float(os.environ.get('VERIF_CASE_TIMEOUT', '900') or 0))
+
+
+def _alarm(signum, frame):
+    raise CaseTimeout()
 
 
 def call_case(check, case):
@@ -208,12 +238,23 @@ def call_case(check, case):
 def _run_one(args):
     idx, case = args
     t0 = time.time()
+    import signal
+    lim = _case_limit()
     try:
+        if lim:
+            signal.signal(signal.SIGALRM, _alarm)
+            signal.alarm(lim)
         _reset_library_state()
         r = call_case(_CHECK, case)
+    except CaseTimeout:
+        r = result(failures=[], digest='TIMEOUT')
+        r['harness_error'] = f'case exceeded the per-case wall limit of {lim} s: {str(case)[:300]}'
     except Exception as e:  # a crash of the harness itself is a harness error, not a violation
         r = result(failures=[], digest='EXC')
         r['harness_error'] = f'{type(e).__name__}: {e}\n{traceback.format_exc()[-1500:]}'
+    finally:
+        if lim:
+            signal.alarm(0)
     r['idx'] = idx
     r['wall'] = time.time() - t0
     for f in r.get('failures', []):
@@ -250,6 +291,7 @@ def replay(pid, path):
     _assert_repo()
     rec = json.load(open(path))
     import csep  # noqa: F401
+    _limit_memory()
     _reset_library_state()
     r = call_case(check, rec['case'])
     sigs = [f['signature'] for f in r['failures']]
@@ -277,6 +319,15 @@ def digests(pid, tier, seed, idxs):
     return 0
 
 
+def _replay_subprocess(pid, path):
+    try:
+        p = subprocess.run([sys.executable, '-B', '-W', 'ignore', os.path.join(VERIF, 'mc', 'run.py'), pid, '--replay', path],
+                           capture_output=True, text=True, env=dict(os.environ, PYTHONHASHSEED='0'), timeout=(_case_limit() or 3600) + 300)
+    except subprocess.TimeoutExpired:
+        return False
+    return p.returncode == 1
+
+
 # ----------------------------------------------------------------------------- main run
 def run(pid, tier, seed, workers=None, max_cases=None):
     t_start = time.time()
@@ -298,8 +349,20 @@ def run(pid, tier, seed, workers=None, max_cases=None):
     done = 0
     chunk = max(1, min(64, len(cases) // (workers * 8) or 1))
     with ctx.Pool(workers, initializer=_init_worker, initargs=(pid,)) as pool:
-        it = pool.imap(_run_one, list(enumerate(cases)), chunksize=chunk)
-        for r in it:
+        it = pool.imap(_run_one, list(enumerate(cases)), chunksize=1)     # chunksize 1: an IMapIterator, whose next() takes a timeout
+        lost = False
+        wait = (_case_limit() or 3600) + 300
+        while True:
+            try:
+                r = it.next(timeout=wait)
+            except StopIteration:
+                break
+            except multiprocessing.TimeoutError:
+                # a worker died without delivering its result (killed by the kernel, hard crash of an extension module)
+                agg['harness_errors'].append((done, f'no result within {wait} s after {done} completed cases: a worker process was lost'))
+                lost = capped = True
+                pool.terminate()
+                break
             done += 1
             agg['evals'] += int(r['evals'])
             agg['states'] += int(r['states'])
@@ -379,7 +442,7 @@ def run(pid, tier, seed, workers=None, max_cases=None):
     for sig, fs in sorted(new.items()):
         os.makedirs(replay_dir, exist_ok=True)
         f = fs[0]
-        rec = dict(property=pid, signature=sig, detail=f['detail'], case=f['case'], tier=tier, seed=seed,
+        rec = dict(property=pid, signature=sig, detail=f['detail'][:4000], case=f['case'], tier=tier, seed=seed,
                    n_cases_with_signature=len(fs))
         path = os.path.join(replay_dir, jhash([sig, f['case']])[:16] + '.json')
         with open(path, 'w') as fh:
@@ -388,10 +451,7 @@ def run(pid, tier, seed, workers=None, max_cases=None):
         ok = True
         if verified < 8:
             verified += 1
-            p = subprocess.run([sys.executable, '-B', '-W', 'ignore', os.path.join(VERIF, 'mc', 'run.py'), pid,
-                                '--replay', path], capture_output=True, text=True,
-                               env=dict(os.environ, PYTHONHASHSEED='0'))
-            ok = (p.returncode == 1)
+            ok = _replay_subprocess(pid, path)
             if not ok and f.get('origin') is not None and f['origin'] < len(cases):
                 # the minimal case does not fail on its own: the failure may need the sequence of calls of the whole
                 # originating case (state carried between calls). Replay that whole case in a fresh process instead.
@@ -399,10 +459,7 @@ def run(pid, tier, seed, workers=None, max_cases=None):
                 path2 = os.path.join(replay_dir, jhash([sig, 'origin', f['origin']])[:16] + '.json')
                 with open(path2, 'w') as fh:
                     json.dump(rec2, fh, indent=1, default=repr)
-                p2 = subprocess.run([sys.executable, '-B', '-W', 'ignore', os.path.join(VERIF, 'mc', 'run.py'), pid,
-                                     '--replay', path2], capture_output=True, text=True,
-                                    env=dict(os.environ, PYTHONHASHSEED='0'))
-                if p2.returncode == 1:
+                if _replay_subprocess(pid, path2):
                     ok = True
                     path = path2
         if not ok:
@@ -416,6 +473,7 @@ def run(pid, tier, seed, workers=None, max_cases=None):
         if fx is not None:
             lines.append(f'  (this signature is recorded as fixed by {fx.get("commit")}: the defect has returned)')
 
+    confirmed = (exit_code == 1)
     if agg['harness_errors']:
         idx, msg = agg['harness_errors'][0]
         lines.append(f'HARNESS-ERROR property={pid} case_index={idx} ({len(agg["harness_errors"])} case(s)): {msg}')
@@ -423,6 +481,8 @@ def run(pid, tier, seed, workers=None, max_cases=None):
     if nondet:
         lines.append(f'NONDETERMINISM property={pid} digests differ on re-execution of cases {nondet[:10]}')
         exit_code = max(exit_code, 2)
+    if confirmed and not [l for l in lines if l.startswith('NONDETERMINISM')]:
+        exit_code = 1       # a violation that reproduced in a fresh process stands, whatever else went wrong in other cases
 
     wall = time.time() - t_start
     cov = dict(
